@@ -58,6 +58,14 @@ fn entries(pos_doc: &Option<MObj>, neg_doc: &Option<MObj>, side: &str) -> Vec<Ex
         mk("non-matching", Some(d.clone()), None);
     }
     mk("empty-mapping", Some(MObj::new()), None);
+    // a long example full of multi-byte text (whatever the error message does with it)
+    {
+        let mut d = neg_doc.clone().unwrap_or_else(MObj::new);
+        for (i, unit) in ["é", "日本", "a€", "ß"].iter().enumerate() {
+            d.set(&format!("long{}", i), s(&unit.repeat(90 + i)));
+        }
+        mk("long-multibyte-non-matching", Some(d), None);
+    }
     // a YAML merge key is a literal "<<" entry for matches(); validate() must see the same document
     for (d, label) in [(pos_doc, "merge-key-over-matching"), (neg_doc, "merge-key-over-non-matching")] {
         if let Some(d) = d {
